@@ -150,6 +150,497 @@ def LexShape : Prop :=
 theorem lex_shape : LexShape :=
   ⟨rfl, rfl, rfl, rfl, rfl, rfl, rfl, rfl, rfl, rfl, rfl, rfl, rfl, rfl, rfl, rfl, rfl, rfl, rfl, rfl, rfl, rfl, rfl, rfl, rfl⟩
 
+/-- F_mfmt_main -/
+def F_mfmt_mainShape : Prop :=
+    F_mfmt_main.f_main = "flag.Parse(); if *prog == \"\" {}; os.OpenFile(*prog, os.O_RDWR, 0); if err != nil {}; parser.Parse(*prog, f); if err != nil {}; checker.Check(ast, 0, 0); if err != nil {}; up.Unparse(ast); if *write {if err := f.Truncate(0); err != nil {}; if _, err := f.Seek(0, io.SeekStart); err != nil {}; if _, err := f.WriteString(out); err != nil {}} else {fmt.Print(out)}"
+theorem f_mfmt_main_shape : F_mfmt_mainShape :=
+  rfl
+
+/-- F_exporter_collectd -/
+def F_exporter_collectdShape : Prop :=
+    F_exporter_collectd.f_metricToCollectd = "return fmt.Sprintf(collectdFormat, hostname, *collectdPrefix, m.Program, kindToCollectdType(m.Kind), formatLabels(m.Name, l.Labels, \"-\", \"-\", \"_\"), int64(interval.Seconds()), l.Datum.TimeString(), l.Datum.ValueString())" ∧
+    F_exporter_collectd.f_kindToCollectdType = "if kind != metrics.Timer {return strings.ToLower(kind.String())}; return \"gauge\""
+theorem f_exporter_collectd_shape : F_exporter_collectdShape :=
+  ⟨rfl, rfl⟩
+
+/-- F_exporter_export -/
+def F_exporter_exportShape : Prop :=
+    F_exporter_export.f_Hostname = "return func(e *Exporter) error { e.hostname = hostname return nil }" ∧
+    F_exporter_export.f_OmitProgLabel = "return func(e *Exporter) error { e.omitProgLabel = true return nil }" ∧
+    F_exporter_export.f_EmitTimestamp = "return func(e *Exporter) error { e.emitTimestamp = true return nil }" ∧
+    F_exporter_export.f_PushInterval = "return func(e *Exporter) error { e.pushInterval = opt return nil }" ∧
+    F_exporter_export.f_DisableExport = "return func(e *Exporter) error { e.exportDisabled = true return nil }" ∧
+    F_exporter_export.f_New = "if store == nil {return nil, ErrNeedsStore}; e.ctx, e.cancelFunc = context.WithCancel(ctx); defer close(e.initDone); if err := e.SetOption(options...); err != nil {return nil, err}; if e.hostname == \"\" {e.hostname, err = os.Hostname(); if err != nil {return nil, errors.Wrap(err, \"getting hostname\")}}; if *collectdSocketPath != \"\" {e.RegisterPushExport(o)}; if *graphiteHostPort != \"\" {e.RegisterPushExport(o)}; if *statsdHostPort != \"\" {e.RegisterPushExport(o)}; e.StartMetricPush(); go {<-e.initDone; if !e.exportDisabled {<-e.ctx.Done()}; e.wg.Wait(); close(e.shutdownDone)}; return e, nil" ∧
+    F_exporter_export.f_Exporter_Stop = "e.cancelFunc(); <-e.shutdownDone" ∧
+    F_exporter_export.f_Exporter_SetOption = "for range options {if err := option(e); err != nil {return err}}; return nil" ∧
+    F_exporter_export.f_formatLabels = "if len(m) > 0 {for range m {append(keys, k)}; sort.Strings(keys); for range keys {strings.ReplaceAll(strings.ReplaceAll(k, ksep, rep), sep, rep); strings.ReplaceAll(strings.ReplaceAll(m[k], ksep, rep), sep, rep); append(s, fmt.Sprintf(\"%s%s%s\", k1, ksep, v1))}; return r + sep + strings.Join(s, sep)}; return r" ∧
+    F_exporter_export.f_Exporter_writeSocketMetrics = "return e.store.Range(func {m.RLock(); if m.Kind == metrics.Text {m.RUnlock(); return nil}; exportTotal.Add(1); make(chan *metrics.LabelSet); go m.EmitLabelSets(); for range lc {f(e.hostname, m, l, e.pushInterval); fmt.Fprint(c, line); if err == nil {exportSuccess.Add(1)} else {for range lc {}; m.RUnlock(); return errors.Errorf(\"write error: %s\", err)}}; m.RUnlock(); return nil})" ∧
+    F_exporter_export.f_Exporter_PushMetrics = "for range e.pushTargets {net.DialTimeout(target.net, target.addr, *writeDeadline); if err != nil {continue}; conn.SetDeadline(time.Now().Add(*writeDeadline)); if err != nil {}; e.writeSocketMetrics(conn, target.f, target.total, target.success); if err != nil {}; conn.Close(); if err != nil {}}" ∧
+    F_exporter_export.f_Exporter_StartMetricPush = "if e.exportDisabled {return }; if len(e.pushTargets) == 0 {return }; if e.pushInterval <= 0 {return }; e.wg.Add(1); go {defer e.wg.Done(); <-e.initDone; time.NewTicker(e.pushInterval); defer ticker.Stop(); for  {select {case <-e.ctx.Done(): {return } case <-ticker.C: {e.PushMetrics()}}}}" ∧
+    F_exporter_export.f_Exporter_RegisterPushExport = "e.pushTargets = append(e.pushTargets, p)"
+theorem f_exporter_export_shape : F_exporter_exportShape :=
+  ⟨rfl, rfl, rfl, rfl, rfl, rfl, rfl, rfl, rfl, rfl, rfl, rfl, rfl⟩
+
+/-- F_exporter_graphite -/
+def F_exporter_graphiteShape : Prop :=
+    F_exporter_graphite.f_Exporter_HandleGraphite = "w.Header().Add(\"Content-type\", \"text/plain\"); e.store.Range(func {select {case <-r.Context().Done(): {return r.Context().Err()} case default: {}}; m.RLock(); graphiteExportTotal.Add(1); make(chan *metrics.LabelSet); go m.EmitLabelSets(); for range lc {metricToGraphite(e.hostname, m, l, 0); fmt.Fprint(w, line)}; m.RUnlock(); return nil}); if err != nil {http.Error(w, fmt.Sprintf(\"%s\", err), http.StatusInternalServerError)}" ∧
+    F_exporter_graphite.f_metricToGraphite = "if m.Kind == metrics.Histogram && m.Type == metrics.Buckets {datum.GetBuckets(d); for range buckets.GetBuckets() {if math.IsInf(r.Max, 1) {} else {fmt.Sprintf(\"%v\", r.Max)}; fmt.Fprintf(&b, \"%s%s.%s.bin_%s %v %v\\n\", *graphitePrefix, m.Program, formatLabels(m.Name, l.Labels, \".\", \".\", \"_\"), binName, c, l.Datum.TimeString())}; fmt.Fprintf(&b, \"%s%s.%s.count %v %v\\n\", *graphitePrefix, m.Program, formatLabels(m.Name, l.Labels, \".\", \".\", \"_\"), buckets.GetCount(), l.Datum.TimeString())}; fmt.Fprintf(&b, \"%s%s.%s %v %v\\n\", *graphitePrefix, m.Program, formatLabels(m.Name, l.Labels, \".\", \".\", \"_\"), l.Datum.ValueString(), l.Datum.TimeString()); return b.String()"
+theorem f_exporter_graphite_shape : F_exporter_graphiteShape :=
+  ⟨rfl, rfl⟩
+
+/-- F_exporter_json -/
+def F_exporter_jsonShape : Prop :=
+    F_exporter_json.f_Exporter_HandleJSON = "json.MarshalIndent(e.store, \"\", \" \"); if err != nil {exportJSONErrors.Add(1); http.Error(w, err.Error(), http.StatusInternalServerError); return }; w.Header().Set(\"content-type\", \"application/json\"); if _, err := w.Write(b); err != nil {http.Error(w, err.Error(), http.StatusInternalServerError)}"
+theorem f_exporter_json_shape : F_exporter_jsonShape :=
+  rfl
+
+/-- F_exporter_prometheus -/
+def F_exporter_prometheusShape : Prop :=
+    F_exporter_prometheus.f_noHyphens = "return strings.ReplaceAll(s, \"-\", \"_\")" ∧
+    F_exporter_prometheus.f_Exporter_Describe = "prometheus.DescribeByCollect(e, c)" ∧
+    F_exporter_prometheus.f_Exporter_Collect = "make(map[string]string); e.store.Range(func {m.RLock(); if m.Kind == metrics.Text {m.RUnlock(); return nil}; metricExportTotal.Add(1); make(chan *metrics.LabelSet); go m.EmitLabelSets(); for range lsc {if !ok {sources[noHyphens(m.Name)] = lastSource}; if !e.omitProgLabel {append(keys, \"prog\"); append(vals, m.Program)}; for range ls.Labels {append(keys, k); append(vals, v)}; if m.Kind == metrics.Histogram {prometheus.NewConstHistogram(prometheus.NewDesc(noHyphens(m.Name), fmt.Sprintf(\"defined at %s\", lastSource), keys, nil), datum.GetBucketsCount(ls.Datum), datum.GetBucketsSum(ls.Datum), datum.GetBucketsCumByMax(ls.Datum), vals)} else {prometheus.NewConstMetric(prometheus.NewDesc(noHyphens(m.Name), fmt.Sprintf(\"defined at %s\", lastSource), keys, nil), promTypeForKind(m.Kind), promValueForDatum(ls.Datum), vals)}; if err != nil {continue}; if e.emitTimestamp {c <-} else {c <-}}; m.RUnlock(); return nil})" ∧
+    F_exporter_prometheus.f_Exporter_Write = "prometheus.NewRegistry(); reg.Register(e); if err != nil {return err}; reg.Gather(); if err != nil {return err}; expfmt.NewEncoder(w, expfmt.NewFormat(expfmt.TypeTextPlain)); for range mfs {enc.Encode(mf); if err != nil {return err}}; return nil" ∧
+    F_exporter_prometheus.f_promTypeForKind = "switch k {case metrics.Counter: {return prometheus.CounterValue} case metrics.Gauge: {return prometheus.GaugeValue} case metrics.Timer: {return prometheus.GaugeValue}}; return prometheus.UntypedValue" ∧
+    F_exporter_prometheus.f_promValueForDatum = "switch n := d.(type) {case *datum.Int: {return float64(n.Get())} case *datum.Float: {return n.Get()}}; return 0."
+theorem f_exporter_prometheus_shape : F_exporter_prometheusShape :=
+  ⟨rfl, rfl, rfl, rfl, rfl, rfl⟩
+
+/-- F_exporter_statsd -/
+def F_exporter_statsdShape : Prop :=
+    F_exporter_statsd.f_metricToStatsd = "switch m.Kind {case metrics.Counter: {} case metrics.Gauge: {} case metrics.Timer: {}}; return fmt.Sprintf(\"%s%s.%s:%s|%s\", *statsdPrefix, m.Program, formatLabels(m.Name, l.Labels, \".\", \".\", \"_\"), l.Datum.ValueString(), t)"
+theorem f_exporter_statsd_shape : F_exporter_statsdShape :=
+  rfl
+
+/-- F_exporter_varz -/
+def F_exporter_varzShape : Prop :=
+    F_exporter_varz.f_Exporter_HandleVarz = "w.Header().Add(\"Content-type\", \"text/plain\"); e.store.Range(func {select {case <-r.Context().Done(): {return r.Context().Err()} case default: {}}; m.RLock(); exportVarzTotal.Add(1); make(chan *metrics.LabelSet); go m.EmitLabelSets(); for range lc {metricToVarz(m, l, e.omitProgLabel, e.hostname); fmt.Fprint(w, line)}; m.RUnlock(); return nil}); if err != nil {http.Error(w, fmt.Sprintf(\"%s\", err), http.StatusInternalServerError)}" ∧
+    F_exporter_varz.f_metricToVarz = "make([]string, 0, len(l.Labels) + 2); for range l.Labels {append(s, fmt.Sprintf(\"%s=%s\", k, v))}; sort.Strings(s); if !omitProgLabel {append(s, fmt.Sprintf(\"prog=%s\", m.Program))}; append(s, fmt.Sprintf(\"instance=%s\", hostname)); return fmt.Sprintf(varzFormat, m.Name, strings.Join(s, \",\"), l.Datum.ValueString())"
+theorem f_exporter_varz_shape : F_exporter_varzShape :=
+  ⟨rfl, rfl⟩
+
+/-- F_datum_buckets -/
+def F_datum_bucketsShape : Prop :=
+    F_datum_buckets.f_Range_Contains = "return r.Min < v && v <= r.Max" ∧
+    F_datum_buckets.f_Buckets_ValueString = "return fmt.Sprintf(\"%g\", d.GetSum())" ∧
+    F_datum_buckets.f_Buckets_Observe = "d.Lock(); defer d.Unlock(); for range d.Buckets {if v <= b.Range.Max || i == n {d.Buckets[i].Count++; break}}; d.Count++; d.Sum += v; d.stamp(ts)" ∧
+    F_datum_buckets.f_Buckets_GetCount = "d.RLock(); defer d.RUnlock(); return d.Count" ∧
+    F_datum_buckets.f_Buckets_GetSum = "d.RLock(); defer d.RUnlock(); return d.Sum" ∧
+    F_datum_buckets.f_Buckets_AddBucket = "d.Lock(); defer d.Unlock(); d.Buckets = append(d.Buckets, BucketCount{r, 0})" ∧
+    F_datum_buckets.f_Buckets_GetBuckets = "d.RLock(); defer d.RUnlock(); make(map[Range]uint64); for range d.Buckets {b[bc.Range] = bc.Count}; return b" ∧
+    F_datum_buckets.f_Buckets_MarshalJSON = "d.RLock(); defer d.RUnlock(); make(map[string]uint64); for range d.Buckets {bs[strconv.FormatFloat(b.Range.Max, 'g', -1, 64)] = b.Count}; return json.Marshal(j)" ∧
+    F_datum_buckets.f_Range_MarshalJSON = "return json.Marshal(j)"
+theorem f_datum_buckets_shape : F_datum_bucketsShape :=
+  ⟨rfl, rfl, rfl, rfl, rfl, rfl, rfl, rfl, rfl⟩
+
+/-- F_datum_datum -/
+def F_datum_datumShape : Prop :=
+    F_datum_datum.f_BaseDatum_stamp = "if timestamp.IsZero() {atomic.StoreInt64(&d.Time, time.Now().UTC().UnixNano())} else {atomic.StoreInt64(&d.Time, timestamp.UnixNano())}" ∧
+    F_datum_datum.f_BaseDatum_TimeString = "return fmt.Sprintf(\"%d\", atomic.LoadInt64(&d.Time)/1e9)" ∧
+    F_datum_datum.f_BaseDatum_TimeUTC = "atomic.LoadInt64(&d.Time); return time.Unix(tNsec/1e9, tNsec%1e9)" ∧
+    F_datum_datum.f_NewInt = "return MakeInt(0, zeroTime)" ∧
+    F_datum_datum.f_NewFloat = "return MakeFloat(0., zeroTime)" ∧
+    F_datum_datum.f_NewString = "return MakeString(\"\", zeroTime)" ∧
+    F_datum_datum.f_NewBuckets = "return MakeBuckets(buckets, zeroTime)" ∧
+    F_datum_datum.f_MakeInt = "d.Set(v, ts); return d" ∧
+    F_datum_datum.f_MakeFloat = "d.Set(v, ts); return d" ∧
+    F_datum_datum.f_MakeString = "d.Set(v, ts); return d" ∧
+    F_datum_datum.f_MakeBuckets = "for range buckets {d.AddBucket(b); if math.IsInf(b.Max, +1) {} else if b.Max > highest {}}; if !seenInf {d.AddBucket(Range{highest, math.Inf(+1)})}; return d" ∧
+    F_datum_datum.f_GetInt = "switch d := d.(type) {case *Int: {return d.Get()} case default: {panic(fmt.Sprintf(\"datum %v is not an Int\", d))}}" ∧
+    F_datum_datum.f_GetFloat = "switch d := d.(type) {case *Float: {return d.Get()} case default: {panic(fmt.Sprintf(\"datum %v is not a Float\", d))}}" ∧
+    F_datum_datum.f_GetString = "switch d := d.(type) {case *String: {return d.Get()} case default: {panic(fmt.Sprintf(\"datum %v is not a String\", d))}}" ∧
+    F_datum_datum.f_SetInt = "switch d := d.(type) {case *Int: {d.Set(v, ts)} case *Buckets: {d.Observe(float64(v), ts)} case default: {panic(fmt.Sprintf(\"datum %v is not an Int\", d))}}" ∧
+    F_datum_datum.f_SetFloat = "switch d := d.(type) {case *Float: {d.Set(v, ts)} case *Buckets: {d.Observe(v, ts)} case default: {panic(fmt.Sprintf(\"datum %v is not a Float\", d))}}" ∧
+    F_datum_datum.f_SetString = "switch d := d.(type) {case *String: {d.Set(v, ts)} case default: {panic(fmt.Sprintf(\"datum %v is not a String\", d))}}" ∧
+    F_datum_datum.f_IncIntBy = "switch d := d.(type) {case *Int: {d.IncBy(v, ts)} case default: {panic(fmt.Sprintf(\"datum %v is not an Int\", d))}}" ∧
+    F_datum_datum.f_DecIntBy = "switch d := d.(type) {case *Int: {d.DecBy(v, ts)} case default: {panic(fmt.Sprintf(\"datum %v is not an Int\", d))}}" ∧
+    F_datum_datum.f_GetBuckets = "switch d := d.(type) {case *Buckets: {return d} case default: {panic(fmt.Sprintf(\"datum %v is not a Buckets\", d))}}" ∧
+    F_datum_datum.f_Observe = "switch d := d.(type) {case *Buckets: {d.Observe(v, ts)} case default: {panic(fmt.Sprintf(\"datum %v is not a Buckets\", d))}}" ∧
+    F_datum_datum.f_GetBucketsCount = "switch d := d.(type) {case *Buckets: {return d.GetCount()} case default: {panic(fmt.Sprintf(\"datum %v is not a Buckets\", d))}}" ∧
+    F_datum_datum.f_GetBucketsSum = "switch d := d.(type) {case *Buckets: {return d.GetSum()} case default: {panic(fmt.Sprintf(\"datum %v is not a Buckets\", d))}}" ∧
+    F_datum_datum.f_GetBucketsCumByMax = "switch d := d.(type) {case *Buckets: {make(map[float64]uint64); make([]float64, 0); for range d.GetBuckets() {append(maxes, r.Max); buckets[r.Max] = c}; sort.Float64s(maxes); uint64(0); for range maxes {buckets[m] = cum}; return buckets} case default: {panic(fmt.Sprintf(\"datum %v is not a Buckets\", d))}}"
+theorem f_datum_datum_shape : F_datum_datumShape :=
+  ⟨rfl, rfl, rfl, rfl, rfl, rfl, rfl, rfl, rfl, rfl, rfl, rfl, rfl, rfl, rfl, rfl, rfl, rfl, rfl, rfl, rfl, rfl, rfl, rfl⟩
+
+/-- F_datum_float -/
+def F_datum_floatShape : Prop :=
+    F_datum_float.f_Float_ValueString = "return fmt.Sprintf(\"%g\", d.Get())" ∧
+    F_datum_float.f_Float_Set = "atomic.StoreUint64(&d.Valuebits, math.Float64bits(v)); d.stamp(ts)" ∧
+    F_datum_float.f_Float_Get = "return math.Float64frombits(atomic.LoadUint64(&d.Valuebits))" ∧
+    F_datum_float.f_Float_MarshalJSON = "return json.Marshal(j)"
+theorem f_datum_float_shape : F_datum_floatShape :=
+  ⟨rfl, rfl, rfl, rfl⟩
+
+/-- F_datum_int -/
+def F_datum_intShape : Prop :=
+    F_datum_int.f_Int_Set = "atomic.StoreInt64(&d.Value, value); d.stamp(timestamp)" ∧
+    F_datum_int.f_Int_IncBy = "atomic.AddInt64(&d.Value, delta); d.stamp(timestamp)" ∧
+    F_datum_int.f_Int_DecBy = "atomic.AddInt64(&d.Value, -delta); d.stamp(timestamp)" ∧
+    F_datum_int.f_Int_Get = "return atomic.LoadInt64(&d.Value)" ∧
+    F_datum_int.f_Int_ValueString = "return fmt.Sprintf(\"%d\", atomic.LoadInt64(&d.Value))" ∧
+    F_datum_int.f_Int_MarshalJSON = "return json.Marshal(j)"
+theorem f_datum_int_shape : F_datum_intShape :=
+  ⟨rfl, rfl, rfl, rfl, rfl, rfl⟩
+
+/-- F_datum_string -/
+def F_datum_stringShape : Prop :=
+    F_datum_string.f_String_Set = "d.mu.Lock(); d.Value = value; d.stamp(timestamp); d.mu.Unlock()" ∧
+    F_datum_string.f_String_Get = "d.mu.RLock(); defer d.mu.RUnlock(); return d.Value" ∧
+    F_datum_string.f_String_ValueString = "return d.Get()" ∧
+    F_datum_string.f_String_MarshalJSON = "return json.Marshal(j)"
+theorem f_datum_string_shape : F_datum_stringShape :=
+  ⟨rfl, rfl, rfl, rfl⟩
+
+/-- F_metrics_metric -/
+def F_metrics_metricShape : Prop :=
+    F_metrics_metric.f_Kind_String = "switch m {case Counter: {return \"Counter\"} case Gauge: {return \"Gauge\"} case Timer: {return \"Timer\"} case Text: {return \"Text\"} case Histogram: {return \"Histogram\"}}; return \"Unknown\"" ∧
+    F_metrics_metric.f_Kind_Generate = "return reflect.ValueOf(Kind(rand.Intn(int(endKind))))" ∧
+    F_metrics_metric.f_NewMetric = "newMetric(len(keys)); m.Name = name; m.Program = prog; m.Kind = kind; m.Type = typ; copy(m.Keys, keys); return m" ∧
+    F_metrics_metric.f_newMetric = "return &Metric{ Keys: make([]string, keyLen), LabelValues: make([]*LabelValue, 0), labelValuesMap: make(map[string]*LabelValue), }" ∧
+    F_metrics_metric.f_buildLabelValueKey = "for i := 0; i < len(labels); i++ {strings.ReplaceAll(labels[i], \"\\\\\", \"\\\\\\\\\"); strings.ReplaceAll(rs, \"-\", \"\\\\-\"); buf.WriteString(rs); buf.WriteString(\"-\")}; return buf.String()" ∧
+    F_metrics_metric.f_Metric_AppendLabelValue = "if len(lv.Labels) != len(m.Keys) {return errors.Errorf(\"Label values requested (%q) not same length as keys for metric %v\", lv.Labels, m)}; m.LabelValues = append(m.LabelValues, lv); buildLabelValueKey(lv.Labels); m.labelValuesMap[k] = lv; return nil" ∧
+    F_metrics_metric.f_Metric_FindLabelValueOrNil = "buildLabelValueKey(labelvalues); if ok {return lv}; return nil" ∧
+    F_metrics_metric.f_Metric_GetDatum = "if len(labelvalues) != len(m.Keys) {return nil, errors.Errorf(\"Label values requested (%q) not same length as keys for metric %v\", labelvalues, m)}; m.Lock(); defer m.Unlock(); if lv := m.FindLabelValueOrNil(labelvalues); lv != nil {} else {switch m.Type {case Int: {datum.NewInt()} case Float: {datum.NewFloat()} case String: {datum.NewString()} case Buckets: {if buckets == nil {make([]datum.Range, 0)}; datum.NewBuckets(buckets)}}; if err := m.AppendLabelValue(lv); err != nil {return nil, err}}; return d, nil" ∧
+    F_metrics_metric.f_Metric_RemoveOldestDatum = "m.Lock(); defer m.Unlock(); m.removeOldestDatum()" ∧
+    F_metrics_metric.f_Metric_removeOldestDatum = "for range m.LabelValues {if oldestLV == nil || lv.Value.TimeUTC().Before(oldestLV.Value.TimeUTC()) {}}; if oldestLV != nil {m.removeDatum(oldestLV.Labels)}" ∧
+    F_metrics_metric.f_Metric_RemoveDatum = "if len(labelvalues) != len(m.Keys) {return errors.Errorf(\"Label values requested (%q) not same length as keys for metric %v\", labelvalues, m)}; m.Lock(); defer m.Unlock(); m.removeDatum(labelvalues); return nil" ∧
+    F_metrics_metric.f_Metric_removeDatum = "buildLabelValueKey(labelvalues); if ok {for i := 0; i < len(m.LabelValues); i++ {if lv == olv {m.LabelValues = append(m.LabelValues[:i], m.LabelValues[i+1:]...); delete(m.labelValuesMap, k); break}}}" ∧
+    F_metrics_metric.f_Metric_ExpireDatum = "if len(labelvalues) != len(m.Keys) {return errors.Errorf(\"Label values requested (%q) not same length as keys for metric %v\", labelvalues, m)}; m.Lock(); defer m.Unlock(); if lv := m.FindLabelValueOrNil(labelvalues); lv != nil {lv.Expiry = expiry; return nil}; return errors.Errorf(\"No datum for given labelvalues %q\", labelvalues)" ∧
+    F_metrics_metric.f_zip = "make(map[string]string); for range values {r[keys[i]] = v}; return r" ∧
+    F_metrics_metric.f_Metric_EmitLabelSets = "for range m.LabelValues {c <-}; close(c)" ∧
+    F_metrics_metric.f_LabelValue_UnmarshalJSON = "json.Unmarshal(b, &obj); if err != nil {return err}; make([]string, 0); if _, ok := obj[\"Labels\"]; ok {json.Unmarshal(*obj[\"Labels\"], &labels); if err != nil {return err}}; lv.Labels = labels; json.Unmarshal(*obj[\"Value\"], &valObj); if err != nil {return err}; json.Unmarshal(*valObj[\"Time\"], &t); if err != nil {return err}; json.Unmarshal(*valObj[\"Value\"], &i); if err != nil {return err}; lv.Value = datum.MakeInt(i, time.Unix(t/1e9, t%1e9)); return nil" ∧
+    F_metrics_metric.f_Metric_String = "m.RLock(); defer m.RUnlock(); return fmt.Sprintf(\"Metric: name=%s program=%s kind=%v type=%s hidden=%v keys=%v labelvalues=%v source=%s buckets=%v\", m.Name, m.Program, m.Kind, m.Type, m.Hidden, m.Keys, m.LabelValues, m.Source, m.Buckets)" ∧
+    F_metrics_metric.f_Metric_SetSource = "m.Lock(); defer m.Unlock(); m.Source = source"
+theorem f_metrics_metric_shape : F_metrics_metricShape :=
+  ⟨rfl, rfl, rfl, rfl, rfl, rfl, rfl, rfl, rfl, rfl, rfl, rfl, rfl, rfl, rfl, rfl, rfl, rfl⟩
+
+/-- F_metrics_store -/
+def F_metrics_storeShape : Prop :=
+    F_metrics_store.f_NewStore = "s.ClearMetrics(); return " ∧
+    F_metrics_store.f_Store_Add = "s.insertMu.Lock(); defer s.insertMu.Unlock(); s.searchMu.RLock(); if len(s.Metrics[m.Name]) > 0 {if m.Kind != t {s.searchMu.RUnlock(); return errors.Errorf(\"metric %s has different kind %v to existing %v\", m.Name, m.Kind, t)}; for range s.Metrics[m.Name] {if v.Program != m.Program {continue}; if v.Type != m.Type {continue}; if v.Source != m.Source {continue}; if len(v.Keys) != len(m.Keys) || !reflect.DeepEqual(v.Keys, m.Keys) {break}; if !reflect.DeepEqual(v.Buckets, m.Buckets) {break}; v.RLock(); make([]*LabelValue, len(v.LabelValues)); for range v.LabelValues {oldLabelValues[j] = &LabelValue{Labels: oldLabel.Labels, Value: oldLabel.Value, Expiry: oldLabel.Expiry}}; v.RUnlock(); for range oldLabelValues {if err := m.RemoveDatum(lv.Labels...); err != nil {return err}; if err := m.AppendLabelValue(lv); err != nil {return err}}}}; s.searchMu.RUnlock(); s.searchMu.Lock(); s.Metrics[m.Name] = append(s.Metrics[m.Name], m); if dupeIndex >= 0 {s.Metrics[m.Name] = append(s.Metrics[m.Name][0:dupeIndex], s.Metrics[m.Name][dupeIndex+1:]...)}; s.searchMu.Unlock(); return nil" ∧
+    F_metrics_store.f_Store_FindMetricOrNil = "s.searchMu.RLock(); defer s.searchMu.RUnlock(); if !ok {return nil}; for range ml {if m.Program != prog {continue}; return m}; return nil" ∧
+    F_metrics_store.f_Store_ClearMetrics = "s.insertMu.Lock(); defer s.insertMu.Unlock(); s.searchMu.Lock(); defer s.searchMu.Unlock(); s.Metrics = make(map[string][]*Metric)" ∧
+    F_metrics_store.f_Store_MarshalJSON = "s.searchMu.RLock(); defer s.searchMu.RUnlock(); make([]*Metric, 0); for range s.Metrics {append(ms, ml)}; for range ms {m.RLock()}; defer func {for range ms {m.RUnlock()}}(); return json.Marshal(ms)" ∧
+    F_metrics_store.f_Store_Range = "s.searchMu.RLock(); defer s.searchMu.RUnlock(); for range s.Metrics {for range ml {if err := f(m); err != nil {return err}}}; return nil" ∧
+    F_metrics_store.f_Store_Gc = "time.Now(); return s.Range(func {m.Lock(); defer m.Unlock(); if m.Limit > 0 && len(m.LabelValues) >= m.Limit {for i := len(m.LabelValues); i > m.Limit; i-- {m.removeOldestDatum()}}; for i := 0; i < len(m.LabelValues); i++ {if lv.Expiry <= 0 {continue}; if now.Sub(lv.Value.TimeUTC()) > lv.Expiry {m.removeDatum(lv.Labels)}}; return nil})" ∧
+    F_metrics_store.f_Store_StartGcLoop = "if duration <= 0 {return }; go {time.NewTicker(duration); defer ticker.Stop(); for  {select {case <-ticker.C: {if err := s.Gc(); err != nil {}} case <-ctx.Done(): {return }}}}" ∧
+    F_metrics_store.f_Store_WriteMetrics = "s.searchMu.RLock(); json.MarshalIndent(s.Metrics, \"\", \" \"); s.searchMu.RUnlock(); if err != nil {return errors.Wrap(err, \"failed to marshal metrics into json\")}; w.Write(b); if err != nil {return errors.Wrap(err, \"failed to write metrics\")}; return nil"
+theorem f_metrics_store_shape : F_metrics_storeShape :=
+  ⟨rfl, rfl, rfl, rfl, rfl, rfl, rfl, rfl, rfl⟩
+
+/-- F_mtail_mtail -/
+def F_mtail_mtailShape : Prop :=
+    F_mtail_mtail.f_Server_initRuntime = "m.r, err = runtime.New(m.lines, &m.wg, m.programPath, m.store, m.rOpts...); return " ∧
+    F_mtail_mtail.f_Server_initExporter = "m.e, err = exporter.New(m.ctx, m.store, m.eOpts...); if err != nil {return err}; m.reg.MustRegister(m.e); buildInfoOnce.Do(func {version.Branch = m.buildInfo.Branch; version.Version = m.buildInfo.Version; version.Revision = m.buildInfo.Revision}); m.reg.MustRegister(vc.NewCollector(\"mtail\")); return nil" ∧
+    F_mtail_mtail.f_Server_initTailer = "m.t, err = tailer.New(m.ctx, &m.wg, m.lines, m.tOpts...); return " ∧
+    F_mtail_mtail.f_Server_initHTTPServer = "make(chan struct{}); defer close(initDone); if m.listener == nil {return nil}; http.NewServeMux(); if m.httpDebugEndpoints {mux.Handle(\"/debug/vars\", expvar.Handler()); mux.HandleFunc(\"/debug/pprof/\", pprof.Index); mux.HandleFunc(\"/debug/pprof/cmdline\", pprof.Cmdline); mux.HandleFunc(\"/debug/pprof/profile\", pprof.Profile); mux.HandleFunc(\"/debug/pprof/symbol\", pprof.Symbol); mux.HandleFunc(\"/debug/pprof/trace\", pprof.Trace)}; if m.httpInfoEndpoints {mux.HandleFunc(\"/favicon.ico\", FaviconHandler); mux.HandleFunc(\"/varz\", http.HandlerFunc(m.e.HandleVarz)); mux.Handle(\"/progz\", http.HandlerFunc(m.r.ProgzHandler))}; mux.Handle(\"/\", m); mux.Handle(\"/metrics\", promhttp.HandlerFor(m.reg, promhttp.HandlerOpts{})); mux.HandleFunc(\"/json\", http.HandlerFunc(m.e.HandleJSON)); mux.HandleFunc(\"/graphite\", http.HandlerFunc(m.e.HandleGraphite)); zpages.Handle(mux, \"/\"); make(chan error, 1); wg.Add(1); go {defer wg.Done(); <-initDone; if err := srv.Serve(m.listener); err != nil && !errors.Is(err, http.ErrServerClosed) {errc <-}}; go {<-initDone; select {case err := <-errc: {} case <-m.ctx.Done(): {context.WithTimeout(context.Background(), 5 * time.Second); defer cancel(); srv.SetKeepAlivesEnabled(false); if err := srv.Shutdown(ctx); err != nil {}}}; wg.Wait()}; return nil" ∧
+    F_mtail_mtail.f_New = "m.ctx, m.cancel = context.WithCancel(ctx); m.rOpts = append(m.rOpts, runtime.PrometheusRegisterer(m.reg)); m.reg.MustRegister(collectors.NewGoCollector(), collectors.NewProcessCollector(collectors.ProcessCollectorOpts{})); prometheus.WrapRegistererWithPrefix(\"mtail_\", m.reg).MustRegister(collectors.NewExpvarCollector(expvarDescs)); if err := m.SetOption(options...); err != nil {return nil, err}; if err := m.initExporter(); err != nil {return nil, err}; if err := m.initRuntime(); err != nil {return nil, err}; if err := m.initTailer(); err != nil {return nil, err}; if err := m.initHTTPServer(); err != nil {return nil, err}; return m, nil" ∧
+    F_mtail_mtail.f_Server_SetOption = "for range options {if err := option.apply(m); err != nil {return err}}; return nil" ∧
+    F_mtail_mtail.f_Server_Run = "m.wg.Wait(); m.cancel(); if m.compileOnly {return nil}; return nil"
+theorem f_mtail_mtail_shape : F_mtail_mtailShape :=
+  ⟨rfl, rfl, rfl, rfl, rfl, rfl, rfl⟩
+
+/-- F_ast_ast -/
+def F_ast_astShape : Prop :=
+    F_ast_ast.f_StmtList_Pos = "return mergepositionlist(n.Children)" ∧
+    F_ast_ast.f_StmtList_Type = "return types.None" ∧
+    F_ast_ast.f_ExprList_Pos = "return mergepositionlist(n.Children)" ∧
+    F_ast_ast.f_ExprList_Type = "n.typMu.RLock(); defer n.typMu.RUnlock(); return n.typ" ∧
+    F_ast_ast.f_ExprList_SetType = "n.typMu.Lock(); defer n.typMu.Unlock(); n.typ = t" ∧
+    F_ast_ast.f_CondStmt_Pos = "return mergepositionlist([]Node{n.Cond, n.Truth, n.Else})" ∧
+    F_ast_ast.f_CondStmt_Type = "return types.None" ∧
+    F_ast_ast.f_IDTerm_Pos = "return &n.P" ∧
+    F_ast_ast.f_IDTerm_Type = "if n.Symbol != nil {return n.Symbol.Type}; return types.Error" ∧
+    F_ast_ast.f_CaprefTerm_Pos = "return &n.P" ∧
+    F_ast_ast.f_CaprefTerm_Type = "if n.Symbol != nil {return n.Symbol.Type}; return types.Error" ∧
+    F_ast_ast.f_BuiltinExpr_Pos = "return &n.P" ∧
+    F_ast_ast.f_BuiltinExpr_Type = "n.typMu.RLock(); defer n.typMu.RUnlock(); return n.typ" ∧
+    F_ast_ast.f_BuiltinExpr_SetType = "n.typMu.Lock(); defer n.typMu.Unlock(); n.typ = t" ∧
+    F_ast_ast.f_BinaryExpr_Pos = "return position.Merge(n.LHS.Pos(), n.RHS.Pos())" ∧
+    F_ast_ast.f_BinaryExpr_Type = "n.typMu.RLock(); defer n.typMu.RUnlock(); return n.typ" ∧
+    F_ast_ast.f_BinaryExpr_SetType = "n.typMu.Lock(); defer n.typMu.Unlock(); n.typ = t" ∧
+    F_ast_ast.f_UnaryExpr_Pos = "return position.Merge(&n.P, n.Expr.Pos())" ∧
+    F_ast_ast.f_UnaryExpr_Type = "n.typMu.RLock(); defer n.typMu.RUnlock(); return n.typ" ∧
+    F_ast_ast.f_UnaryExpr_SetType = "n.typMu.Lock(); defer n.typMu.Unlock(); n.typ = t" ∧
+    F_ast_ast.f_IndexedExpr_Pos = "return position.Merge(n.LHS.Pos(), n.Index.Pos())" ∧
+    F_ast_ast.f_IndexedExpr_Type = "n.typMu.RLock(); defer n.typMu.RUnlock(); return n.typ" ∧
+    F_ast_ast.f_IndexedExpr_SetType = "n.typMu.Lock(); defer n.typMu.Unlock(); n.typ = t" ∧
+    F_ast_ast.f_VarDecl_Pos = "return &n.P" ∧
+    F_ast_ast.f_VarDecl_Type = "if n.Kind == metrics.Histogram {return types.Buckets} else if n.Symbol != nil {return n.Symbol.Type}; return types.Error" ∧
+    F_ast_ast.f_StringLit_Pos = "return &n.P" ∧
+    F_ast_ast.f_StringLit_Type = "return types.String" ∧
+    F_ast_ast.f_IntLit_Pos = "return &n.P" ∧
+    F_ast_ast.f_IntLit_Type = "return types.Int" ∧
+    F_ast_ast.f_FloatLit_Pos = "return &n.P" ∧
+    F_ast_ast.f_FloatLit_Type = "return types.Float" ∧
+    F_ast_ast.f_PatternExpr_Pos = "return n.Expr.Pos()" ∧
+    F_ast_ast.f_PatternExpr_Type = "return types.Pattern" ∧
+    F_ast_ast.f_PatternLit_Pos = "return &n.P" ∧
+    F_ast_ast.f_PatternLit_Type = "return types.Pattern" ∧
+    F_ast_ast.f_PatternFragment_Pos = "return n.ID.Pos()" ∧
+    F_ast_ast.f_PatternFragment_Type = "return types.Pattern" ∧
+    F_ast_ast.f_DecoDecl_Pos = "return position.Merge(&n.P, n.Block.Pos())" ∧
+    F_ast_ast.f_DecoDecl_Type = "if n.Symbol != nil {return n.Symbol.Type}; return types.Int" ∧
+    F_ast_ast.f_DecoStmt_Pos = "return position.Merge(&n.P, n.Block.Pos())" ∧
+    F_ast_ast.f_DecoStmt_Type = "return types.None" ∧
+    F_ast_ast.f_NextStmt_Pos = "return &n.P" ∧
+    F_ast_ast.f_NextStmt_Type = "return types.None" ∧
+    F_ast_ast.f_OtherwiseStmt_Pos = "return &n.P" ∧
+    F_ast_ast.f_OtherwiseStmt_Type = "return types.None" ∧
+    F_ast_ast.f_DelStmt_Pos = "return &n.P" ∧
+    F_ast_ast.f_DelStmt_Type = "return types.None" ∧
+    F_ast_ast.f_ConvExpr_Pos = "return n.N.Pos()" ∧
+    F_ast_ast.f_ConvExpr_Type = "n.mu.RLock(); defer n.mu.RUnlock(); return n.typ" ∧
+    F_ast_ast.f_ConvExpr_SetType = "n.mu.Lock(); defer n.mu.Unlock(); n.typ = t" ∧
+    F_ast_ast.f_Error_Pos = "return &n.P" ∧
+    F_ast_ast.f_Error_Type = "return types.Error" ∧
+    F_ast_ast.f_StopStmt_Pos = "return &n.P" ∧
+    F_ast_ast.f_StopStmt_Type = "return types.None" ∧
+    F_ast_ast.f_mergepositionlist = "switch len(l) {case 0: {return nil} case 1: {if l[0] == nil {return nil}; return l[0].Pos()} case default: {return position.Merge(l[0].Pos(), mergepositionlist(l[1:]))}}"
+theorem f_ast_ast_shape : F_ast_astShape :=
+  ⟨rfl, rfl, rfl, rfl, rfl, rfl, rfl, rfl, rfl, rfl, rfl, rfl, rfl, rfl, rfl, rfl, rfl, rfl, rfl, rfl, rfl, rfl, rfl, rfl, rfl, rfl, rfl, rfl, rfl, rfl, rfl, rfl, rfl, rfl, rfl, rfl, rfl, rfl, rfl, rfl, rfl, rfl, rfl, rfl, rfl, rfl, rfl, rfl, rfl, rfl, rfl, rfl, rfl, rfl, rfl⟩
+
+/-- F_ast_walk -/
+def F_ast_walkShape : Prop :=
+    F_ast_walk.f_walknodelist = "make([]Node, 0, len(list)); for range list {append(r, Walk(v, x))}; return r" ∧
+    F_ast_walk.f_Walk = "if v, node = v.VisitBefore(node); v == nil {return node}; switch n := node.(type) {case *StmtList: {n.Children = walknodelist(v, n.Children)} case *ExprList: {n.Children = walknodelist(v, n.Children)} case *CondStmt: {if n.Cond != nil {n.Cond = Walk(v, n.Cond)}; n.Truth = Walk(v, n.Truth); if n.Else != nil {n.Else = Walk(v, n.Else)}} case *BuiltinExpr: {if n.Args != nil {n.Args = Walk(v, n.Args)}} case *BinaryExpr: {n.LHS = Walk(v, n.LHS); n.RHS = Walk(v, n.RHS)} case *UnaryExpr: {n.Expr = Walk(v, n.Expr)} case *IndexedExpr: {n.Index = Walk(v, n.Index); n.LHS = Walk(v, n.LHS)} case *DecoDecl: {n.Block = Walk(v, n.Block)} case *DecoStmt: {n.Block = Walk(v, n.Block)} case *ConvExpr: {n.N = Walk(v, n.N)} case *PatternExpr: {n.Expr = Walk(v, n.Expr)} case *PatternFragment: {n.Expr = Walk(v, n.Expr)} case *IDTerm, *CaprefTerm, *VarDecl, *StringLit, *IntLit, *FloatLit, *PatternLit, *NextStmt, *OtherwiseStmt, *DelStmt, *StopStmt: {} case default: {panic(fmt.Sprintf(\"Walk: unexpected node type %T: %v\", n, n))}}; v.VisitAfter(node); return node"
+theorem f_ast_walk_shape : F_ast_walkShape :=
+  ⟨rfl, rfl⟩
+
+/-- F_position_position -/
+def F_position_positionShape : Prop :=
+    F_position_position.f_Position_String = "fmt.Sprintf(\"%s:%d:%d\", p.Filename, p.Line + 1, p.Startcol + 1); if p.Endcol > p.Startcol {fmt.Sprintf(\"-%d\", p.Endcol + 1)}; return r" ∧
+    F_position_position.f_Merge = "if a == nil {return b}; if b == nil {return a}; if a.Filename != b.Filename {return a}; if a.Line != b.Line {return a}; if b.Startcol < r.Startcol {r.Startcol = b.Startcol}; if b.Endcol > r.Endcol {r.Endcol = b.Endcol}; return &r"
+theorem f_position_position_shape : F_position_positionShape :=
+  ⟨rfl, rfl⟩
+
+/-- F_checker_checker -/
+def F_checker_checkerShape : Prop :=
+    F_checker_checker.f_Check = "if maxRegexpLength == 0 {}; if maxRecursionDepth == 0 {}; ast.Walk(c, node); if len(c.errors) == 0 && len(c.histograms) > 0 {ast.Walk(&histogramReads{c}, node)}; if len(c.errors) > 0 {return node, c.errors}; return node, nil" ∧
+    F_checker_checker.f_checker_checkSymbolTable = "for range c.scope.Symbols {if !sym.Used {if sym.Kind == symbol.CaprefSymbol {if sym.Addr == 0 {continue}; continue}; c.errors.Add(sym.Pos, fmt.Sprintf(\"Declaration of %s `%s' here is never used.\", sym.Kind, sym.Name))}}" ∧
+    F_checker_checker.f_checker_isHistogram = "if ie, ok := e.(*ast.IndexedExpr); ok {}; if !ok || id.Symbol == nil {return false}; return ok" ∧
+    F_checker_checker.f_checker_checkRegex = "len(pattern); if plen > c.maxRegexLength {c.errors.Add(n.Pos(), fmt.Sprintf(\"Exceeded maximum regular expression pattern length of %d bytes with %d.\\n\\tExcessively long patterns are likely to cause compilation and runtime performance problems.\", c.maxRegexLength, plen)); return }; if reAst, err := types.ParseRegexp(pattern); err == nil {if c.noRegexSymbols {return }; for range reAst.CapNames() {symbol.NewSymbol(fmt.Sprintf(\"%d\", i), symbol.CaprefSymbol, n.Pos()); sym.Type = types.InferCaprefType(reAst, i); sym.Binding = n; sym.Addr = i; if alt := c.scope.Insert(sym); alt != nil {c.errors.Add(n.Pos(), fmt.Sprintf(\"Redeclaration of capture group `%s' previously declared at %s\", sym.Name, alt.Pos))}; if capref != \"\" {sym.Name = capref; if alt := c.scope.InsertAlias(sym, capref); alt != nil {c.errors.Add(n.Pos(), fmt.Sprintf(\"Redeclaration of capture group `%s' previously declared at %s\", sym.Name, alt.Pos))}}}} else {c.errors.Add(n.Pos(), err.Error()); return }"
+theorem f_checker_checker_shape : F_checker_checkerShape :=
+  ⟨rfl, rfl, rfl, rfl⟩
+
+/-- F_codegen_codegen -/
+def F_codegen_codegenShape : Prop :=
+    F_codegen_codegen.f_CodeGen = "ast.Walk(c, n); c.writeJumps(); if len(c.errors) > 0 {return nil, c.errors}; return &c.obj, nil" ∧
+    F_codegen_codegen.f_codegen_errorf = "c.errors.Add(pos, e)" ∧
+    F_codegen_codegen.f_codegen_emit = "c.obj.Program = append(c.obj.Program, code.Instr{opcode, operand, n.Pos().Line})" ∧
+    F_codegen_codegen.f_codegen_newLabel = "len(c.l); c.l = append(c.l, -1); return " ∧
+    F_codegen_codegen.f_codegen_setLabel = "c.l[l] = c.pc() + 1" ∧
+    F_codegen_codegen.f_codegen_pc = "return len(c.obj.Program) - 1" ∧
+    F_codegen_codegen.f_getOpcodeForType = "if !ok {return -1, errors.Errorf(\"no typed operator for type %v\", op)}; for range opmap {if types.Equals(t, opT) {return opcode, nil}}; return -1, errors.Errorf(\"no opcode for type %s in op %v\", opT, op)" ∧
+    F_codegen_codegen.f_codegen_emitConversion = "switch  {case types.Equals(types.Int, inType) && types.Equals(types.Float, outType): {c.emit(n, code.I2f, nil)} case types.Equals(types.String, inType) && types.Equals(types.Float, outType): {c.emit(n, code.S2f, nil)} case types.Equals(types.String, inType) && types.Equals(types.Int, outType): {c.emit(n, code.S2i, nil)} case types.Equals(types.Float, inType) && types.Equals(types.String, outType): {c.emit(n, code.F2s, nil)} case types.Equals(types.Int, inType) && types.Equals(types.String, outType): {c.emit(n, code.I2s, nil)} case types.Equals(types.Pattern, inType) && types.Equals(types.Bool, outType): {} case types.Equals(inType, outType): {} case default: {return errors.Errorf(\"can't convert %q to %q\", inType, outType)}}; return nil" ∧
+    F_codegen_codegen.f_codegen_writeJumps = "for range c.obj.Program {switch i.Opcode {case code.Jmp, code.Jm, code.Jnm: {if index > len(c.l) {c.errorf(nil, \"no jump at label %v, table is %v\", i.Operand, c.l); continue}; if offset < 0 {c.errorf(nil, \"offset for label %v is negative, table is %v\", i.Operand, c.l); continue}; c.obj.Program[j].Operand = c.l[index]}}}"
+theorem f_codegen_codegen_shape : F_codegen_codegenShape :=
+  ⟨rfl, rfl, rfl, rfl, rfl, rfl, rfl, rfl, rfl⟩
+
+/-- F_compiler_compiler -/
+def F_compiler_compilerShape : Prop :=
+    F_compiler_compiler.f_New = "if err := c.SetOption(options...); err != nil {return nil, err}; return c, nil" ∧
+    F_compiler_compiler.f_Compiler_SetOption = "for range options {if err := option(c); err != nil {return err}}; return nil" ∧
+    F_compiler_compiler.f_EmitAst = "return func(c *Compiler) error { c.emitAst = true return nil }" ∧
+    F_compiler_compiler.f_EmitAstTypes = "return func(c *Compiler) error { c.emitAstTypes = true return nil }" ∧
+    F_compiler_compiler.f_MaxRegexpLength = "return func(c *Compiler) error { c.maxRegexpLength = maxRegexpLength return nil }" ∧
+    F_compiler_compiler.f_MaxRecursionDepth = "return func(c *Compiler) error { c.maxRecursionDepth = maxRecursionDepth return nil }" ∧
+    F_compiler_compiler.f_DisableOptimisation = "return func(c *Compiler) error { c.disableOptimisation = true return nil }" ∧
+    F_compiler_compiler.f_Compiler_Compile = "filepath.Base(name); parser.Parse(name, input); if err != nil {return }; if c.emitAst {}; if !c.disableOptimisation {opt.Optimise(ast); if err != nil {return }; if c.emitAstTypes {}}; checker.Check(ast, c.maxRegexpLength, c.maxRecursionDepth); if err != nil {return }; if c.emitAstTypes {s.EmitTypes = true}; if !c.disableOptimisation {opt.Optimise(ast); if err != nil {return }; if c.emitAstTypes {s.EmitTypes = true}}; codegen.CodeGen(name, ast); return "
+theorem f_compiler_compiler_shape : F_compiler_compilerShape :=
+  ⟨rfl, rfl, rfl, rfl, rfl, rfl, rfl, rfl⟩
+
+/-- F_opt_opt -/
+def F_opt_optShape : Prop :=
+    F_opt_opt.f_Optimise = "ast.Walk(o, n); if len(o.errors) > 0 {return r, o.errors}; return r, nil"
+theorem f_opt_opt_shape : F_opt_optShape :=
+  rfl
+
+/-- F_parser_driver -/
+def F_parser_driverShape : Prop :=
+    F_parser_driver.f_Parse = "newParser(name, input); mtailParse(p); if r != 0 || p.errors != nil {return nil, p.errors}; return p.root, nil" ∧
+    F_parser_driver.f_newParser = "return &parser{name: name, l: NewLexer(name, input)}" ∧
+    F_parser_driver.f_parser_ErrorP = "p.errors.Add(pos, s)" ∧
+    F_parser_driver.f_parser_Error = "p.errors.Add(&p.t.Pos, s)" ∧
+    F_parser_driver.f_parser_Lex = "p.t = p.l.NextToken(); verifLexHook(inRegex, p.t); switch p.t.Kind {case INVALID: {p.Error(p.t.Spelling); lval.text = p.t.Spelling; return INVALID} case INTLITERAL: {lval.intVal, err = strconv.ParseInt(p.t.Spelling, 10, 64); if err != nil {p.Error(fmt.Sprintf(\"bad number '%s': %s\", p.t.Spelling, err)); return INVALID}} case FLOATLITERAL: {lval.floatVal, err = strconv.ParseFloat(p.t.Spelling, 64); if err != nil {p.Error(fmt.Sprintf(\"bad number '%s': %s\", p.t.Spelling, err)); return INVALID}} case DURATIONLITERAL: {lval.duration, err = time.ParseDuration(p.t.Spelling); if err != nil {p.Error(fmt.Sprintf(\"%s\", err)); return INVALID}} case LT, GT, LE, GE, NE, EQ, SHL, SHR, BITAND, BITOR, AND, OR, XOR, NOT, INC, DEC, DIV, MUL, MINUS, PLUS, ASSIGN, ADD_ASSIGN, POW, MOD, MATCH, NOT_MATCH: {lval.op = int(p.t.Kind)} case default: {lval.text = p.t.Spelling}}; return int(p.t.Kind)" ∧
+    F_parser_driver.f_parser_inRegex = "p.l.InRegex = true" ∧
+    F_parser_driver.f_init = "flag.IntVar(&mtailDebug, \"mtailDebug\", 0, \"Set parser debug level.\")"
+theorem f_parser_driver_shape : F_parser_driverShape :=
+  ⟨rfl, rfl, rfl, rfl, rfl, rfl, rfl⟩
+
+/-- F_parser_unparser -/
+def F_parser_unparserShape : Prop :=
+    F_parser_unparser.f_Unparser_indent = "u.pos += 2" ∧
+    F_parser_unparser.f_Unparser_outdent = "u.pos -= 2" ∧
+    F_parser_unparser.f_Unparser_prefix = "for i := 0; i < u.pos; i++ {}; return " ∧
+    F_parser_unparser.f_Unparser_emit = "u.line.WriteString(s)" ∧
+    F_parser_unparser.f_Unparser_newline = "u.output.WriteString(u.prefix()); u.output.WriteString(u.line.String()); u.output.WriteString(\"\\n\"); u.line.Reset()" ∧
+    F_parser_unparser.f_keyName = "NewLexer(\"\", strings.NewReader(k)); if t := l.NextToken(); t.Kind == ID && t.Spelling == k && l.NextToken().Kind == EOF {return k}; return quote(k)" ∧
+    F_parser_unparser.f_durationLiteral = "if d >= time.Millisecond {return d.String()}; return strings.TrimRight(fmt.Sprintf(\"0.%09d\", int64(d)), \"0\") + \"s\"" ∧
+    F_parser_unparser.f_quote = "return \"\\\"\" + strings.ReplaceAll(s, \"\\\"\", \"\\\\\\\"\") + \"\\\"\"" ∧
+    F_parser_unparser.f_precedence = "switch v := n.(type) {case *ast.ConvExpr: {return precedence(v.N)} case *ast.BinaryExpr: {switch v.Op {case ASSIGN, ADD_ASSIGN: {return precAssign} case AND, OR, MATCH, NOT_MATCH: {return precLogical} case BITAND, BITOR, XOR: {return precBitwise} case LT, GT, LE, GE, EQ, NE: {return precRel} case SHL, SHR: {return precShift} case PLUS, MINUS: {return precAdditive} case default: {return precMultiplicative}}} case *ast.UnaryExpr: {switch v.Op {case NOT: {return precUnary} case INC, DEC: {return precPostfix} case default: {return precedence(v.Expr)}}} case *ast.PatternExpr: {return precedence(v.Expr)}}; return precPrimary" ∧
+    F_parser_unparser.f_opPrecedence = "return precedence(&ast.BinaryExpr{Op: op})" ∧
+    F_parser_unparser.f_lhsNeedsParens = "switch op {case MATCH, NOT_MATCH: {return precedence(lhs) < precPrimary} case ASSIGN, ADD_ASSIGN: {return precedence(lhs) < precUnary}}; if _, isPattern := lhs.(*ast.PatternLit); isPattern || isConcat(lhs) {return false}; return precedence(lhs) < opPrecedence(op)" ∧
+    F_parser_unparser.f_rhsNeedsParens = "switch op {case MATCH, NOT_MATCH: {if _, isPattern := rhs.(*ast.PatternExpr); isPattern {return false}; return precedence(rhs) < precPrimary} case ASSIGN, ADD_ASSIGN: {return precedence(rhs) < precLogical}}; if _, isPattern := rhs.(*ast.PatternLit); isPattern {return false}; return precedence(rhs) <= opPrecedence(op)" ∧
+    F_parser_unparser.f_isConcat = "if !ok || b.Op != PLUS {return false}; if _, isPattern := b.RHS.(*ast.PatternLit); isPattern {return true}; return isConcat(b.LHS)" ∧
+    F_parser_unparser.f_Unparser_walkOperand = "if parens {u.emit(\"(\")}; ast.Walk(u, n); if parens {u.emit(\")\")}" ∧
+    F_parser_unparser.f_Unparser_Unparse = "ast.Walk(u, n); return u.output.String()"
+theorem f_parser_unparser_shape : F_parser_unparserShape :=
+  ⟨rfl, rfl, rfl, rfl, rfl, rfl, rfl, rfl, rfl, rfl, rfl, rfl, rfl, rfl, rfl⟩
+
+/-- F_symbol_symtab -/
+def F_symbol_symtabShape : Prop :=
+    F_symbol_symtab.f_Kind_String = "switch k {case VarSymbol: {return \"variable\"} case CaprefSymbol: {return \"capture group reference\"} case DecoSymbol: {return \"decorator\"} case PatternSymbol: {return \"named pattern constant\"} case default: {panic(\"unexpected symbolkind\")}}" ∧
+    F_symbol_symtab.f_NewSymbol = "return &Symbol{name, kind, types.Undef, pos, nil, 0, false}" ∧
+    F_symbol_symtab.f_NewScope = "return &Scope{parent, make(map[string]*Symbol)}" ∧
+    F_symbol_symtab.f_Scope_Insert = "if alt = s.Symbols[sym.Name]; alt == nil {s.Symbols[sym.Name] = sym}; return " ∧
+    F_symbol_symtab.f_Scope_InsertAlias = "if alt = s.Symbols[alias]; alt == nil {s.Symbols[alias] = sym}; return " ∧
+    F_symbol_symtab.f_Scope_Lookup = "for scope := s; scope != nil; scope = scope.Parent {if sym := scope.Symbols[name]; sym != nil && sym.Kind == kind {return sym}}; return nil" ∧
+    F_symbol_symtab.f_Scope_String = "fmt.Fprintf(&buf, \"scope %p {\", s); if s != nil {fmt.Fprintln(&buf); if len(s.Symbols) > 0 {for range s.Symbols {fmt.Fprintf(&buf, \"\\t%q: %v %q %v\\n\", name, sym.Kind, sym.Name, sym.Used)}}; if s.Parent != nil {fmt.Fprintf(&buf, \"%s\", s.Parent.String())}}; fmt.Fprintf(&buf, \"}\\n\"); return buf.String()" ∧
+    F_symbol_symtab.f_Scope_CopyFrom = "for range o.Symbols {s.Insert(sym)}; if o.Parent != nil {s.CopyFrom(o.Parent)}"
+theorem f_symbol_symtab_shape : F_symbol_symtabShape :=
+  ⟨rfl, rfl, rfl, rfl, rfl, rfl, rfl, rfl⟩
+
+/-- F_types_types -/
+def F_types_typesShape : Prop :=
+    F_types_types.f_TypeError_Root = "return e" ∧
+    F_types_types.f_TypeError_String = "if e == nil || e.error == nil {return \"type error\"}; if IsComplete(e.expected) {e.expected.String()} else {}; if IsComplete(e.received) {e.received.String()} else {}; return fmt.Sprintf(\"%s; expected %s received %s\", e.error, estr, rstr)" ∧
+    F_types_types.f_TypeError_Error = "return e.String()" ∧
+    F_types_types.f_TypeError_Unwrap = "return e.error" ∧
+    F_types_types.f_AsTypeError = "*target, ok = t.(*TypeError); return ok" ∧
+    F_types_types.f_IsTypeError = "return AsTypeError(t, &e)" ∧
+    F_types_types.f_NewVariable = "nextVariableIDMu.Lock(); nextVariableIDMu.Unlock(); return &Variable{ID: id}" ∧
+    F_types_types.f_Variable_Root = "t.instanceMu.Lock(); defer t.instanceMu.Unlock(); if t.Instance == nil {return t}; t.Instance.Root(); t.Instance = r; return r" ∧
+    F_types_types.f_Variable_String = "t.instanceMu.RLock(); defer t.instanceMu.RUnlock(); if t.Instance != nil {return t.Instance.String()}; return fmt.Sprintf(\"typeVar%d\", t.ID)" ∧
+    F_types_types.f_Variable_SetInstance = "t.instanceMu.Lock(); defer t.instanceMu.Unlock(); t.Instance = t1" ∧
+    F_types_types.f_Operator_Root = "return t" ∧
+    F_types_types.f_Operator_String = "switch  {case l < 2: {for range t.Args {}} case default: {t.Args[0].String(); for range t.Args[1:] {}}}; return s" ∧
+    F_types_types.f_Function = "return &Operator{functionName, args}" ∧
+    F_types_types.f_IsFunction = "if v, ok := t.(*Operator); ok {return v.Name == functionName}; return false" ∧
+    F_types_types.f_Dimension = "return &Operator{dimensionName, args}" ∧
+    F_types_types.f_IsDimension = "if v, ok := t.(*Operator); ok {return v.Name == dimensionName}; return false" ∧
+    F_types_types.f_Alternate = "return &Operator{alternateName, args}" ∧
+    F_types_types.f_IsAlternate = "if v, ok := t.(*Operator); ok {return v.Name == alternateName}; return false" ∧
+    F_types_types.f_IsComplete = "switch v := t.Root().(type) {case *Variable: {return false} case *Operator: {for range v.Args {if !IsComplete(a) {return false}}; return true}}; return false" ∧
+    F_types_types.f_FreshType = "make(map[*Variable]*Variable); return freshRec(t)" ∧
+    F_types_types.f_OccursIn = "for range types {if occursInType(v, t2) {return true}}; return false" ∧
+    F_types_types.f_occursInType = "t2.Root(); if Equals(root, v) {return true}; if to, ok := root.(*Operator); ok {return OccursIn(v, to.Args)}; return false" ∧
+    F_types_types.f_Equals = "t1.Root(), t2.Root(); switch t1 := t1.(type) {case *Variable: {if !ok {return occursInType(t1, t2)}; return t1.ID == r2.ID} case *Operator: {if !ok {return false}; if t1.Name != t2.Name {return false}; if len(t1.Args) != len(t2.Args) {return false}; for range t1.Args {if !Equals(t1.Args[i], t2.Args[i]) {return false}}; return true} case *TypeError: {return false}}; return true" ∧
+    F_types_types.f_Unify = "a.Root(), b.Root(); switch aT := aR.(type) {case *Variable: {switch bT := bR.(type) {case *Variable: {if aT.ID != bT.ID {aT.SetInstance(bR); return bR}; return aT} case *Operator: {if occursInType(aT, bT) {return &TypeError{ErrRecursiveUnification, aT, bT}}; aT.SetInstance(bR); return bR}}} case *Operator: {switch bT := bR.(type) {case *Variable: {Unify(b, a); if AsTypeError(t, &e) {return &TypeError{ErrTypeMismatch, e.received, e.expected}}; return t} case *Operator: {switch  {case IsAlternate(aT) && !IsAlternate(bT): {if OccursIn(bT, aT.Args) {return bT}; return &TypeError{ErrTypeMismatch, aT, bT}} case IsAlternate(bT) && !IsAlternate(aT): {Unify(b, a); if AsTypeError(t, &e) {return &TypeError{e.error, e.received, e.expected}}; return t} case IsAlternate(aT) && IsAlternate(bT): {for range bT.Args {if OccursIn(arg, aT.Args) {append(args, arg)}}; if len(args) == 0 {return &TypeError{ErrTypeMismatch, aT, bT}}; if len(args) == 1 {return args[0]}; return &Operator{alternateName, args}} case default: {if len(aT.Args) != len(bT.Args) {return &TypeError{ErrTypeMismatch, aT, bT}}; if aT.Name != bT.Name {LeastUpperBound(a, b); if AsTypeError(t, &e) {return e}; if rType, ok = t.(*Operator); !ok {return &TypeError{ErrRecursiveUnification, aT, bT}}} else {}; rType.Args = make([]Type, len(aT.Args)); for range aT.Args {Unify(argA, bT.Args[i]); if AsTypeError(t, &e) {return e}; rType.Args[i] = t}; return rType}}}}}}; return &TypeError{ErrInternal, a, b}" ∧
+    F_types_types.f_LeastUpperBound = "a.Root(), b.Root(); if Equals(a1, b1) {return a1}; if _, ok := a1.(*Variable); ok {return b1}; if _, ok := b1.(*Variable); ok {return a1}; if Equals(a1, Undef) {return b1}; if Equals(b1, Undef) {return a1}; for range typeCoercions {if (Equals(a1, pair.sub) && Equals(b1, pair.sup)) ||\n\t(Equals(b1, pair.sub) && Equals(a1, pair.sup)) {return pair.sup}}; if (Equals(a1, Pattern) && Equals(b1, Bool)) ||\n\t(Equals(a1, Bool) && Equals(b1, Pattern)) {return Bool}; if (Equals(a1, Bool) && Equals(b1, Int)) ||\n\t(Equals(a1, Int) && Equals(b1, Bool)) {return Int}; if (Equals(a1, Numeric) && Equals(b1, Int)) ||\n\t(Equals(a1, Int) && Equals(b1, Numeric)) {return Int}; if (Equals(a1, Numeric) && Equals(b1, Float)) ||\n\t(Equals(a1, Float) && Equals(b1, Numeric)) {return Float}; if (Equals(a1, String) && Equals(b1, Pattern)) ||\n\t(Equals(a1, Pattern) && Equals(b1, String)) {return Pattern}; if (Equals(a1, Pattern) && Equals(b1, Int)) ||\n\t(Equals(a1, Int) && Equals(b1, Pattern)) {return Bool}; return &TypeError{ErrTypeMismatch, a, b}" ∧
+    F_types_types.f_InferCaprefType = "getCaptureGroup(re, n); if group == nil {return None}; if group.Op != syntax.OpAlternate {return inferGroupType(group)}; Type(Undef); for range group.Sub {LeastUpperBound(subType, inferGroupType(sub))}; return subType" ∧
+    F_types_types.f_inferGroupType = "switch  {case groupOnlyMatches(group, \"+-\"): {return String} case groupOnlyMatches(group, \"+-0123456789\"): {if !strings.ContainsAny(group.String(), \"0123456789\") {return String}; if group.Op == syntax.OpAlternate || group.Op == syntax.OpCharClass {return String}; return Int} case groupOnlyMatches(group, \"+-0123456789.eE\"): {if strings.Count(group.String(), \".\") > 1 {return String}; return Float}}; return String" ∧
+    F_types_types.f_getCaptureGroup = "if re.Op == syntax.OpCapture && re.Cap == cgID {return re.Sub[0]}; for range re.Sub {getCaptureGroup(sub, cgID); if r != nil {return r}}; return nil" ∧
+    F_types_types.f_groupOnlyMatches = "switch group.Op {case syntax.OpLiteral: {for range group.Rune {if !strings.ContainsRune(s, r) {return false}}; return true} case syntax.OpCharClass: {for i := 0; i < len(group.Rune); i += 2 {for r := lo; r <= hi; r++ {if !strings.ContainsRune(s, r) {return false}}}; return true} case syntax.OpStar, syntax.OpPlus, syntax.OpRepeat, syntax.OpQuest, syntax.OpCapture: {return groupOnlyMatches(group.Sub[0], s)} case syntax.OpConcat, syntax.OpAlternate: {for range group.Sub {if !groupOnlyMatches(sub, s) {return false}}} case default: {return false}}; return true"
+theorem f_types_types_shape : F_types_typesShape :=
+  ⟨rfl, rfl, rfl, rfl, rfl, rfl, rfl, rfl, rfl, rfl, rfl, rfl, rfl, rfl, rfl, rfl, rfl, rfl, rfl, rfl, rfl, rfl, rfl, rfl, rfl, rfl, rfl, rfl, rfl⟩
+
+/-- F_runtime_runtime -/
+def F_runtime_runtimeShape : Prop :=
+    F_runtime_runtime.f_Runtime_LoadAllPrograms = "if r.programPath == \"\" {return nil}; os.Stat(r.programPath); if err != nil {return errors.Wrapf(err, \"failed to stat %q\", r.programPath)}; switch  {case s.IsDir(): {os.ReadDir(r.programPath); if rerr != nil {return errors.Wrapf(rerr, \"Failed to list programs in %q\", r.programPath)}; make(map[string]struct{}); r.handleMu.RLock(); for range r.handles {markDeleted[name] = struct{}{}}; r.handleMu.RUnlock(); for range dirents {if dirent.IsDir() {continue}; r.LoadProgram(filepath.Join(r.programPath, dirent.Name())); if err != nil {if r.errorsAbort {return err}}; delete(markDeleted, filepath.Base(dirent.Name()))}; for range markDeleted {r.UnloadProgram(name)}} case default: {r.LoadProgram(r.programPath); if err != nil {if r.errorsAbort {return err}}}}; return nil" ∧
+    F_runtime_runtime.f_Runtime_LoadProgram = "filepath.Base(programPath); if strings.HasPrefix(name, \".\") {return nil}; if filepath.Ext(name) != fileExt {return nil}; os.OpenFile(filepath.Clean(programPath), os.O_RDONLY, 0o600); if err != nil {ProgLoadErrors.Add(name, 1); return errors.Wrapf(err, \"Failed to read program %q\", programPath)}; defer func {if err := f.Close(); err != nil {}}(); r.programErrorMu.Lock(); defer r.programErrorMu.Unlock(); r.programErrors[name] = r.CompileAndRun(name, f); if r.programErrors[name] != nil {if r.errorsAbort {return r.programErrors[name]}}; return nil" ∧
+    F_runtime_runtime.f_Runtime_CompileAndRun = "io.TeeReader(input, &buf); sha256.New(); if _, err := io.Copy(hasher, tee); err != nil {ProgLoadErrors.Add(name, 1); return errors.Wrapf(err, \"hashing failed for %q\", name)}; hasher.Sum(nil); r.handleMu.RLock(); r.handleMu.RUnlock(); if ok && bytes.Equal(vh.contentHash, contentHash) {return nil}; r.c.Compile(name, &buf); if errs != nil {ProgLoadErrors.Add(name, 1); return errors.Errorf(\"compile failed for %s:\\n%s\", name, errs)}; if obj == nil {ProgLoadErrors.Add(name, 1); return errors.Errorf(\"internal error: compilation failed for %s: no program returned, but no errors\", name)}; vm.New(name, obj, r.syslogUseCurrentYear, r.overrideLocation, r.logRuntimeErrors, r.trace); if r.dumpBytecode {}; for range v.Metrics {if !m.Hidden {if r.omitMetricSource {m.Source = \"\"}; r.ms.Add(m); if err != nil {ProgLoadErrors.Add(name, 1); return err}}}; ProgLoads.Add(name, 1); if r.compileOnly {return nil}; r.handleMu.Lock(); defer r.handleMu.Unlock(); if handle, ok := r.handles[name]; ok {close(handle.lines); <-handle.done}; make(chan *logline.LogLine); make(chan struct{}); r.handles[name] = &vmHandle{contentHash: contentHash, vm: v, lines: lines, done: done}; r.wg.Add(1); go {v.Run(lines, &r.wg); close(done)}; return nil" ∧
+    F_runtime_runtime.f_New = "if store == nil {return nil, ErrNeedsStore}; if wg == nil {return nil, ErrNeedsWaitgroup}; make(chan struct{}); defer close(initDone); if err = r.SetOption(options...); err != nil {return nil, err}; if r.c, err = compiler.New(r.cOpts...); err != nil {return nil, err}; wg.Add(1); defer func {go {defer wg.Done(); <-initDone; r.wg.Wait()}}(); r.wg.Add(1); go {defer r.wg.Done(); <-initDone; for range lines {LineCount.Add(1); r.handleMu.RLock(); for range r.handles {r.handles[prog].lines <-}; r.handleMu.RUnlock()}; close(r.signalQuit); r.handleMu.Lock(); for range r.handles {close(r.handles[prog].lines); delete(r.handles, prog)}; r.handleMu.Unlock()}; if r.programPath == \"\" {return r, nil}; r.wg.Add(1); go {defer r.wg.Done(); <-initDone; if r.programPath == \"\" {return }; make(chan os.Signal, 1); signal.Notify(n, syscall.SIGHUP); defer signal.Stop(n); for  {select {case <-r.signalQuit: {return } case <-n: {if err := r.LoadAllPrograms(); err != nil {}}}}}; if err := r.LoadAllPrograms(); err != nil {return nil, err}; return r, nil" ∧
+    F_runtime_runtime.f_Runtime_SetOption = "for range options {if err := option(r); err != nil {return err}}; return nil" ∧
+    F_runtime_runtime.f_Runtime_UnloadProgram = "filepath.Base(pathname); r.handleMu.Lock(); defer r.handleMu.Unlock(); close(r.handles[name].lines); <-r.handles[name].done; delete(r.handles, name); ProgUnloads.Add(name, 1)"
+theorem f_runtime_runtime_shape : F_runtime_runtimeShape :=
+  ⟨rfl, rfl, rfl, rfl, rfl, rfl⟩
+
+/-- F_vm_vm -/
+def F_vm_vmShape : Prop :=
+    F_vm_vm.f_thread_Push = "t.stack = append(t.stack, value)" ∧
+    F_vm_vm.f_thread_Pop = "t.stack = t.stack[:last]; return " ∧
+    F_vm_vm.f_VM_errorf = "ProgRuntimeErrors.Add(v.name, 1); v.runtimeErrorMu.Lock(); v.runtimeError = fmt.Sprintf(format+\"\\n\", args...); v.runtimeError += fmt.Sprintf( \"Error occurred at instruction %d {%s, %v}, originating in %s at line %d\\n\", v.t.pc-1, i.Opcode, i.Operand, v.name, i.SourceLine+1); v.runtimeError += fmt.Sprintf(\"Full input text from %q was %q\", v.input.Filename, v.input.Line); if v.logRuntimeErrors || bool(glog.V(1)) {}; if glog.V(1) {}; if v.trace != nil {}; v.runtimeErrorMu.Unlock(); v.terminate = true" ∧
+    F_vm_vm.f_thread_PopInt = "t.Pop(); switch n := val.(type) {case int64: {return n, nil} case int: {return int64(n), nil} case float64: {return int64(n), nil} case bool: {if n {return 1, nil}; return 0, nil} case string: {strconv.ParseInt(n, 10, 64); if err != nil {return 0, errors.Wrapf(err, \"conversion of %q to int failed\", val)}; return r, nil} case time.Time: {return n.Unix(), nil} case datum.Datum: {return datum.GetInt(n), nil}}; return 0, errors.Errorf(\"unexpected int type %T %q\", val, val)" ∧
+    F_vm_vm.f_thread_PopFloat = "t.Pop(); switch n := val.(type) {case float64: {return n, nil} case int: {return float64(n), nil} case int64: {return float64(n), nil} case bool: {if n {return 1, nil}; return 0, nil} case string: {strconv.ParseFloat(n, 64); if err != nil {return 0, errors.Wrapf(err, \"conversion of %q to float failed\", val)}; return r, nil} case datum.Datum: {return datum.GetFloat(n), nil}}; return 0, errors.Errorf(\"unexpected float type %T %q\", val, val)" ∧
+    F_vm_vm.f_thread_PopString = "t.Pop(); switch n := val.(type) {case string: {return n, nil} case float64: {return strconv.FormatFloat(n, 'G', -1, 64), nil} case int: {return strconv.Itoa(n), nil} case int64: {return strconv.FormatInt(n, 10), nil} case bool: {return strconv.FormatBool(n), nil} case datum.Datum: {return datum.GetString(n), nil}}; return \"\", errors.Errorf(\"unexpected type for string %T %q\", val, val)" ∧
+    F_vm_vm.f_boolToInt = "if b {return 1}; return 0" ∧
+    F_vm_vm.f_compareInt = "switch opnd {case -1: {return a < b, nil} case 0: {return a == b, nil} case 1: {return a > b, nil} case default: {return false, errors.Errorf(\"unexpected operator type %q\", opnd)}}" ∧
+    F_vm_vm.f_compareFloat = "switch opnd {case -1: {return a < b, nil} case 0: {return a == b, nil} case 1: {return a > b, nil} case default: {return false, errors.Errorf(\"unexpected operator type %q\", opnd)}}" ∧
+    F_vm_vm.f_compareString = "switch opnd {case -1: {return a < b, nil} case 0: {return a == b, nil} case 1: {return a > b, nil} case default: {return false, errors.Errorf(\"unexpected operator type %q\", opnd)}}" ∧
+    F_vm_vm.f_compare = "if v, ok := a.(bool); ok {boolToInt(v)}; if v, ok := b.(bool); ok {boolToInt(v)}; if n, lxIsInt = a.(int); lxIsInt {int64(n)} else {}; if n, rxIsInt = b.(int); rxIsInt {int64(n)} else {}; if lxIsFloat {if rxIsFloat {return compareFloat(lxF, rxF, opnd)}; if rxIsInt {return compareFloat(lxF, float64(rxI), opnd)}; if rxIsStr {strconv.ParseFloat(rxS, 64); if err != nil {return false, errors.Errorf(\"cannot compare %T %q with %T %q\", a, a, b, b)}; return compareFloat(lxF, rx, opnd)}; return false, errors.Errorf(\"cannot compare %T %q with %T %q\", a, a, b, b)}; if lxIsInt {if rxIsFloat {return compareFloat(float64(lxI), rxF, opnd)}; if rxIsInt {return compareInt(lxI, rxI, opnd)}; if rxIsStr {strconv.ParseFloat(rxS, 64); if err != nil {return false, errors.Errorf(\"cannot compare %T %q with %T %q\", a, a, b, b)}; return compareFloat(lxF, rx, opnd)}; return false, errors.Errorf(\"cannot compare %T %q with %T %q\", a, a, b, b)}; if lxIsStr {if lx, err := strconv.ParseFloat(lxS, 64); err == nil {return compare(lx, b, opnd)}; if lx, err := strconv.ParseInt(lxS, 10, 32); err == nil {return compare(lx, b, opnd)}; if rxIsStr {return compareString(lxS, rxS, opnd)}}; return false, errors.Errorf(\"cannot compare %T %q with %T %q\", a, a, b, b)" ∧
+    F_vm_vm.f_VM_ParseTime = "if v.loc != nil {time.ParseInLocation(layout, value, v.loc)} else {time.Parse(layout, value)}; if err != nil {v.errorf(\"strptime (%v, %v, %v) failed: %s\", layout, value, v.loc, err); return }; if tm.Year() == 0 && v.syslogUseCurrentYear {time.Now(); if v.loc != nil {now.In(v.loc)}; tm.AddDate(now.Year(), 0, 0)}; return " ∧
+    F_vm_vm.f_VM_ProcessLogLine = "time.Now(); defer func {LineProcessingDurations.WithLabelValues(v.name).Observe(time.Since(start).Seconds())}(); verifLineHook(v, line); new(thread); t.matched = false; v.t = t; v.input = line; t.stack = make([]interface{}, 0); t.matches = make(map[int][]string, len(v.re)); for  {if t.pc >= len(v.prog) {return }; if v.trace != nil {v.trace = append(v.trace, t.pc)}; t.pc++; v.execute(t, i); if v.terminate {v.terminate = false; return }}" ∧
+    F_vm_vm.f_New = "if trace {v.trace = make([]int, 0, len(v.prog))}; return v" ∧
+    F_vm_vm.f_VM_DumpByteCode = "new(bytes.Buffer); fmt.Fprintf(b, \"Prog: %s\\n\", v.name); fmt.Fprintln(b, \"Metrics\"); for range v.Metrics {if m.Program == v.name {fmt.Fprintf(b, \" %8d %s\\n\", i, m)}}; fmt.Fprintln(b, \"Regexps\"); for range v.re {fmt.Fprintf(b, \" %8d /%s/\\n\", i, re)}; fmt.Fprintln(b, \"Strings\"); for range v.str {fmt.Fprintf(b, \" %8d \\\"%s\\\"\\n\", i, str)}; new(tabwriter.Writer); w.Init(b, 0, 0, 1, ' ', tabwriter.AlignRight); fmt.Fprintln(w, \"disasm\\tl\\top\\topnd\\tline\\t\"); for range v.prog {fmt.Fprintf(w, \"\\t%d\\t%s\\t%v\\t%d\\t\\n\", n, i.Opcode, i.Operand, i.SourceLine + 1)}; if err := w.Flush(); err != nil {}; return b.String()" ∧
+    F_vm_vm.f_VM_RuntimeErrorString = "v.runtimeErrorMu.RLock(); defer v.runtimeErrorMu.RUnlock(); return v.runtimeError" ∧
+    F_vm_vm.f_VM_Run = "defer wg.Done(); context.TODO(); for range lines {v.ProcessLogLine(ctx, line)}"
+theorem f_vm_vm_shape : F_vm_vmShape :=
+  ⟨rfl, rfl, rfl, rfl, rfl, rfl, rfl, rfl, rfl, rfl, rfl, rfl, rfl, rfl, rfl, rfl, rfl⟩
+
+/-- F_logstream_cancel -/
+def F_logstream_cancelShape : Prop :=
+    F_logstream_cancel.f_SetReadDeadlineOnDone = "go {<-ctx.Done(); if err := d.SetReadDeadline(time.Now()); err != nil {}}" ∧
+    F_logstream_cancel.f_IsExitableError = "if err == nil {return false}; if errors.Is(err, io.EOF) {return true}; if errors.Is(err, os.ErrClosed) {return true}; if os.IsTimeout(err) {return true}; if strings.Contains(err.Error(), \"use of closed network connection\") {return true}; return false"
+theorem f_logstream_cancel_shape : F_logstream_cancelShape :=
+  ⟨rfl, rfl⟩
+
+/-- F_logstream_dgramstream -/
+def F_logstream_dgramstreamShape : Prop :=
+    F_logstream_dgramstream.f_newDgramStream = "if address == \"\" {return nil, ErrEmptySocketAddress}; context.WithCancel(ctx); if err := ss.stream(ctx, wg, waker, oneShot); err != nil {return nil, err}; return ss, nil" ∧
+    F_logstream_dgramstream.f_dgramStream_stream = "net.ListenPacket(ds.scheme, ds.address); if err != nil {logErrors.Add(ds.address, 1); return err}; NewLineReader(ds.sourcename, ds.lines, &dgramConn{c}, datagramReadBufferSize, ds.cancel); wg.Add(1); go {defer wg.Done(); defer func {c.Close(); if err != nil {logErrors.Add(ds.address, 1)}; logCloses.Add(ds.address, 1); lr.Finish(ctx); close(ds.lines); ds.cancel()}(); context.WithCancel(ctx); defer cancel(); SetReadDeadlineOnDone(ctx, c); for  {lr.ReadAndSend(ctx); if n == 0 {if oneShot {return }; select {case <-ctx.Done(): {return } case default: {}}}; if n > 0 {if err == nil && ctx.Err() == nil {continue}}; if IsExitableError(err) {return }; select {case <-ctx.Done(): {} case <-waker.Wake(): {}}}}; return nil" ∧
+    F_logstream_dgramstream.f_dgramConn_Read = "d.ReadFrom(p); return "
+theorem f_logstream_dgramstream_shape : F_logstream_dgramstreamShape :=
+  ⟨rfl, rfl, rfl⟩
+
+/-- F_logstream_fifostream -/
+def F_logstream_fifostreamShape : Prop :=
+    F_logstream_fifostream.f_newFifoStream = "context.WithCancel(ctx); if err := ps.stream(ctx, wg, waker, fi); err != nil {return nil, err}; return ps, nil" ∧
+    F_logstream_fifostream.f_fifoOpen = "if IsStdinPattern(pathname) {return os.Stdin, nil}; os.OpenFile(pathname, os.O_RDONLY | syscall.O_NONBLOCK, 0o600); if err != nil {logErrors.Add(pathname, 1); return nil, err}; return fd, nil" ∧
+    F_logstream_fifostream.f_fifoStream_stream = "fifoOpen(ps.pathname); if err != nil {return err}; NewLineReader(ps.sourcename, ps.lines, fd, defaultFifoReadBufferSize, ps.cancel); wg.Add(1); go {defer wg.Done(); defer func {fd.Close(); if err != nil {logErrors.Add(ps.pathname, 1)}; logCloses.Add(ps.pathname, 1); lr.Finish(ctx); close(ps.lines); ps.cancel()}(); SetReadDeadlineOnDone(ctx, fd); for  {lr.ReadAndSend(ctx); if n > 0 {if err == nil && ctx.Err() == nil {continue}} else if n == 0 && total > 0 {return }; if IsExitableError(err) {if !(errors.Is(err, io.EOF) && total == 0) {return }}; select {case <-ctx.Done(): {} case <-waker.Wake(): {}}}}; return nil"
+theorem f_logstream_fifostream_shape : F_logstream_fifostreamShape :=
+  ⟨rfl, rfl, rfl⟩
+
+/-- F_logstream_filestream -/
+def F_logstream_filestreamShape : Prop :=
+    F_logstream_filestream.f_newFileStream = "context.WithCancel(ctx); if err := fs.stream(ctx, wg, waker, fi, oneShot, streamFromStart); err != nil {return nil, err}; return fs, nil" ∧
+    F_logstream_filestream.f_fileStream_stream = "os.OpenFile(fs.pathname, os.O_RDONLY, 0o600); if err != nil {logErrors.Add(fs.sourcename, 1); return err}; logOpens.Add(fs.sourcename, 1); if !streamFromStart {if _, err := fd.Seek(0, io.SeekEnd); err != nil {logErrors.Add(fs.sourcename, 1); if err := fd.Close(); err != nil {logErrors.Add(fs.sourcename, 1)}; return err}}; NewLineReader(fs.sourcename, fs.lines, fd, defaultReadBufferSize, fs.cancel); make(chan struct{}); wg.Add(1); go {defer wg.Done(); defer func {if err := fd.Close(); err != nil {logErrors.Add(fs.sourcename, 1)}; logCloses.Add(fs.sourcename, 1)}(); close(started); for  {lr.ReadAndSend(ctx); if count > 0 {if err == nil && ctx.Err() == nil {continue}}; if err != nil && !errors.Is(err, io.EOF) {logErrors.Add(fs.sourcename, 1); if errors.Is(err, syscall.ESTALE) {if nerr := fs.stream(ctx, wg, waker, fi, oneShot, true); nerr != nil {}; return }}; if errors.Is(err, io.EOF) && count == 0 {os.Stat(fs.pathname); if serr != nil {if os.IsNotExist(serr) {lr.Finish(ctx); close(fs.lines); return }; logErrors.Add(fs.sourcename, 1); goto}; if newfi.IsDir() {lr.Finish(ctx); close(fs.lines); return }; if !os.SameFile(fi, newfi) {lr.Finish(ctx); if err := fs.stream(ctx, wg, waker, newfi, oneShot, true); err != nil {close(fs.lines)}; return }; fd.Seek(0, io.SeekCurrent); if serr != nil {logErrors.Add(fs.sourcename, 1); continue}; if newfi.Size() < currentOffset {lr.Finish(ctx); fd.Seek(0, io.SeekStart); if serr != nil {logErrors.Add(fs.sourcename, 1)}; fileTruncates.Add(fs.sourcename, 1); continue}}; Sleep: if errors.Is(err, io.EOF) {if oneShot == OneShotEnabled {lr.Finish(ctx); close(fs.lines); return }; select {case <-ctx.Done(): {lr.Finish(ctx); close(fs.lines); return } case default: {}}}; select {case <-ctx.Done(): {} case <-waker.Wake(): {}}}}; <-started; return nil"
+theorem f_logstream_filestream_shape : F_logstream_filestreamShape :=
+  ⟨rfl, rfl⟩
+
+/-- F_logstream_reader -/
+def F_logstream_readerShape : Prop :=
+    F_logstream_reader.f_NewLineReader = "return &LineReader{ sourcename: sourcename, lines: lines, f: f, cancel: cancel, size: size, buf: make([]byte, 0, size), }" ∧
+    F_logstream_reader.f_LineReader_ReadAndSend = "if cap(lr.buf)-len(lr.buf) < lr.size {lr.buf = append(make([]byte, 0, len(lr.buf)+lr.size), lr.buf...)}; lr.f.Read(lr.buf[len(lr.buf):cap(lr.buf)]); if lr.staleTimer != nil {lr.staleTimer.Stop()}; lr.buf = lr.buf[:len(lr.buf)+count]; if count > 0 {lr.staleTimer = time.AfterFunc(time.Hour*24, lr.cancel); for ; ok;  {lr.send(ctx)}; lr.buf = lr.buf[lr.off:len(lr.buf)]; lr.off = 0}; return " ∧
+    F_logstream_reader.f_LineReader_send = "min(len(lr.buf), cap(lr.buf)); bytes.IndexByte(lr.buf[lr.off:lim], '\\n'); if i < 0 {return false}; if end > 0 && lr.buf[end-1] == '\\r' {}; string(lr.buf[lr.off:end]); logLines.Add(lr.sourcename, 1); lr.lines <-; lr.off = end + skip; return true" ∧
+    F_logstream_reader.f_LineReader_Finish = "string(lr.buf[lr.off:]); if len(line) == 0 {return }; logLines.Add(lr.sourcename, 1); lr.lines <-; lr.buf = lr.buf[:0]; lr.off = 0"
+theorem f_logstream_reader_shape : F_logstream_readerShape :=
+  ⟨rfl, rfl, rfl, rfl⟩
+
+/-- F_logstream_socketstream -/
+def F_logstream_socketstreamShape : Prop :=
+    F_logstream_socketstream.f_newSocketStream = "if address == \"\" {return nil, ErrEmptySocketAddress}; context.WithCancel(ctx); if err := ss.stream(ctx, wg, waker); err != nil {return nil, err}; return ss, nil" ∧
+    F_logstream_socketstream.f_socketStream_stream = "net.Listen(ss.scheme, ss.address); if err != nil {logErrors.Add(ss.address, 1); return err}; make(chan struct{}); wg.Add(1); go {defer wg.Done(); select {case <-started: {} case <-ctx.Done(): {}}; if !ss.oneShot {<-ctx.Done()}; l.Close(); if err != nil {}; connWg.Wait(); close(ss.lines)}; wg.Add(1); go {defer wg.Done(); for  {connWg.Add(1); l.Accept(); if err != nil {connWg.Done(); return }; go ss.handleConn(); connOnce.Do(func {close(started)}); if ss.oneShot {return }}}; return nil" ∧
+    F_logstream_socketstream.f_socketStream_handleConn = "defer wg.Done(); NewLineReader(ss.sourcename, ss.lines, c, defaultReadBufferSize, ss.cancel); defer func {c.Close(); if err != nil {logErrors.Add(ss.address, 1)}; lr.Finish(ctx); logCloses.Add(ss.address, 1)}(); context.WithCancel(ctx); defer cancel(); SetReadDeadlineOnDone(ctx, c); for  {lr.ReadAndSend(ctx); if n > 0 {if err == nil && ctx.Err() == nil {continue}}; if IsExitableError(err) {return }; select {case <-ctx.Done(): {} case <-waker.Wake(): {}}}"
+theorem f_logstream_socketstream_shape : F_logstream_socketstreamShape :=
+  ⟨rfl, rfl, rfl⟩
+
+/-- F_logstream_logstream -/
+def F_logstream_logstreamShape : Prop :=
+    F_logstream_logstream.f_New = "if wg == nil {return nil, ErrNeedsWaitgroup}; url.Parse(pathname); if err != nil || u.Scheme == \"\" {}; switch u.Scheme {case default: {} case \"unixgram\": {return newDgramStream(ctx, wg, waker, u.Scheme, u.Path, oneShot)} case \"unix\": {return newSocketStream(ctx, wg, waker, u.Scheme, u.Path, oneShot)} case \"tcp\": {return newSocketStream(ctx, wg, waker, u.Scheme, u.Host, oneShot)} case \"udp\": {return newDgramStream(ctx, wg, waker, u.Scheme, u.Host, oneShot)} case \"\", \"file\": {}}; if IsStdinPattern(path) {os.Stdin.Stat(); if err != nil {logErrors.Add(path, 1); return nil, err}; return newFifoStream(ctx, wg, waker, path, fi)}; os.Stat(path); if err != nil {logErrors.Add(path, 1); return nil, err}; switch  {case m.IsRegular(): {return newFileStream(ctx, wg, waker, path, fi, oneShot)} case m&os.ModeType == os.ModeNamedPipe: {return newFifoStream(ctx, wg, waker, path, fi)} case default: {return nil, fmt.Errorf(\"%w: %q\", ErrUnsupportedFileType, pathname)}}" ∧
+    F_logstream_logstream.f_IsStdinPattern = "if pattern == stdinPattern {return true}; if pattern == \"/dev/stdin\" {return true}; return false"
+theorem f_logstream_logstream_shape : F_logstream_logstreamShape :=
+  ⟨rfl, rfl⟩
+
+/-- F_tailer_tail -/
+def F_tailer_tailShape : Prop :=
+    F_tailer_tail.f_niladicOption_apply = "return n.applyfunc(t)" ∧
+    F_tailer_tail.f_LogPatterns_apply = "t.logPatterns = opt; return nil" ∧
+    F_tailer_tail.f_IgnoreRegex_apply = "return t.SetIgnorePattern(string(opt))" ∧
+    F_tailer_tail.f_LogPatternPollWaker = "return &logPatternPollWaker{w}" ∧
+    F_tailer_tail.f_logPatternPollWaker_apply = "t.logPatternPollWaker = opt.Waker; return nil" ∧
+    F_tailer_tail.f_LogstreamPollWaker = "return &logstreamPollWaker{w}" ∧
+    F_tailer_tail.f_logstreamPollWaker_apply = "t.logstreamPollWaker = opt.Waker; return nil" ∧
+    F_tailer_tail.f_New = "if lines == nil {return nil, ErrNoLinesChannel}; if wg == nil {return nil, ErrNeedsWaitgroup}; t.ctx, t.cancel = context.WithCancel(ctx); defer close(t.initDone); if err := t.SetOption(options...); err != nil {return nil, err}; for range t.logPatterns {if err := t.AddPattern(p); err != nil {return nil, err}}; wg.Add(1); go {defer wg.Done(); <-t.initDone; t.wg.Wait(); t.cancel()}; wg.Add(1); go {defer wg.Done(); <-t.initDone; <-t.ctx.Done(); t.wg.Wait(); close(t.lines)}; return t, nil" ∧
+    F_tailer_tail.f_Tailer_SetOption = "for range options {if option == nil {return ErrNilOption}; if err := option.apply(t); err != nil {return err}}; return nil" ∧
+    F_tailer_tail.f_Tailer_AddPattern = "url.Parse(pattern); if err != nil {return err}; switch u.Scheme {case default: {} case \"unix\", \"unixgram\", \"tcp\", \"udp\": {return t.TailPath(path)} case \"\", \"file\": {}}; if logstream.IsStdinPattern(pattern) {return t.TailPath(pattern)}; filepath.Abs(path); if err != nil {return err}; t.globPatternsMu.Lock(); t.globPatterns[path] = struct{}{}; t.globPatternsMu.Unlock(); t.pollLogPattern(path); return nil" ∧
+    F_tailer_tail.f_Tailer_Ignore = "filepath.Abs(pathname); if err != nil {return true}; os.Stat(absPath); if err != nil {return true}; if fi.Mode().IsDir() {return true}; return t.ignoreRegexPattern != nil && t.ignoreRegexPattern.MatchString(fi.Name())" ∧
+    F_tailer_tail.f_Tailer_SetIgnorePattern = "if len(pattern) == 0 {return nil}; regexp.Compile(pattern); if err != nil {fmt.Printf(\"error: %v\\n\", err); return err}; t.ignoreRegexPattern = ignoreRegexPattern; return nil" ∧
+    F_tailer_tail.f_Tailer_TailPath = "t.logstreamsMu.Lock(); defer t.logstreamsMu.Unlock(); if _, ok := t.logstreams[pathname]; ok {return nil}; logstream.New(t.ctx, &t.wg, t.logstreamPollWaker, pathname, t.oneShot); if err != nil {return err}; t.logstreams[pathname] = l; t.wg.Add(1); go {defer t.wg.Done(); for range l.Lines() {t.lines <-}; t.logstreamsMu.Lock(); if !t.oneShot {delete(t.logstreams, pathname)}; logCount.Add(-1); t.logstreamsMu.Unlock()}; logCount.Add(1); return nil" ∧
+    F_tailer_tail.f_Tailer_pollLogPattern = "if err := t.doPatternGlob(pattern); err != nil {}; if t.logPatternPollWaker == nil {return }; t.wg.Add(1); go {defer t.wg.Done(); <-t.initDone; if t.oneShot {return }; for  {select {case <-t.ctx.Done(): {return } case <-t.logPatternPollWaker.Wake(): {if err := t.doPatternGlob(pattern); err != nil {}}}}}" ∧
+    F_tailer_tail.f_Tailer_doPatternGlob = "filepath.Glob(pattern); if err != nil {return err}; for range matches {if t.Ignore(pathname) {continue}; filepath.Abs(pathname); if err != nil {continue}; if err := t.TailPath(absPath); err != nil {}}; return nil"
+theorem f_tailer_tail_shape : F_tailer_tailShape :=
+  ⟨rfl, rfl, rfl, rfl, rfl, rfl, rfl, rfl, rfl, rfl, rfl, rfl, rfl, rfl, rfl⟩
+
 /-- every clause of `VM.execute`: what `Model/VM.lean` spells out opcode by opcode (C01, C02, C04, C05, C07, C21, C25) -/
 def ExecShape : Prop :=
     Exec.before = "defer func {if r := recover(); r != nil {if v.HardCrash {fmt.Printf(\"panic in thread %#v at instr %q: %s\\n\", t, i, r); panic(r)}; v.errorf(\"panic in thread %#v at instr %q: %s\", t, i, r); v.terminate = true}}()" ∧
